@@ -238,6 +238,11 @@ def build_and_run(pid, name, main_rs, tier, seed, extra_args, n_programs=0):
 V_DEF = """#[derive(Animate, Clone, Debug, Default, PartialEq)]
 pub struct V { pub a: f32, pub b: f32, pub c: u8, pub d: i32 }
 mina_verif::shape_impl!(V, V, VTimeline, [a: f32 = F32, b: f32 = F32, c: u8 = U8, d: i32 = I32], []);
+// keyframe values are arbitrary expressions, not only literals
+pub const K_F: f32 = 12.25;
+pub const K_I: i32 = -77;
+pub fn half(x: f32) -> f32 { x * 0.5 }
+pub fn mix(a: f32, b: f32) -> f32 { a * 0.25 + b }
 """
 
 # (literal text, numeric value of the literal, unit) ; value_macro = f32(f32(v)*mult)
@@ -267,10 +272,16 @@ def gen_fields(rnd, allow_empty=True):
         if rnd.random() < 0.6:
             if name in ("a", "b"):
                 v = rnd.choice(["-12.5", "3.0", "100.0", "0.0", "-250.75", "64.125", "7.0", "1000.0", "-0.5"])
+                if rnd.random() < 0.15:
+                    v = rnd.choice(["(1.5 + 2.0)", "K_F", "half(9.0)", "mix(1.0, 5.0)", "2.0 * 3.5", "-K_F", "{ 4.0 }", "f32::from(3u8)"])
             elif name == "c":
                 v = str(rnd.randint(40, 200))
+                if rnd.random() < 0.15:
+                    v = rnd.choice(["40 * 2", "(100 + 17)", "u8::MAX / 2", "90u8"])
             else:
                 v = str(rnd.randint(-500, 500))
+                if rnd.random() < 0.15:
+                    v = rnd.choice(["K_I", "-(3 + 4)", "7 * 9", "K_I.abs()", "i32::from(5i8)"])
             fs.append((name, v))
     if not fs and not allow_empty:
         fs.append(("a", "42.0"))
@@ -515,7 +526,8 @@ def c15(tier, seed, rest):
         rejects.append((f"timeline!(V {text})", cls, True))
         if rnd.random() < 0.3:
             rejects.append((f"timeline!(V {toks})", "control", False))
-    header = "use mina::prelude::*;\n#[derive(Animate, Clone, Debug, Default, PartialEq)]\npub struct V { pub a: f32, pub b: f32, pub c: u8, pub d: i32 }\n"
+    header = ("use mina::prelude::*;\n#[derive(Animate, Clone, Debug, Default, PartialEq)]\npub struct V { pub a: f32, pub b: f32, pub c: u8, pub d: i32 }\n"
+              "pub const K_F: f32 = 12.25; pub const K_I: i32 = -77; pub fn half(x: f32) -> f32 { x * 0.5 } pub fn mix(a: f32, b: f32) -> f32 { a * 0.25 + b }\n")
     ok, rej_path = observe_rejects(f"c15_rejects_{tier}", header, rejects)
     if not ok:
         return inconclusive("C15", "compile-fail observation could not run")
